@@ -6,6 +6,7 @@ pub mod rt;
 pub mod c03;
 pub mod c05;
 pub mod c06;
+pub mod c07;
 pub mod c08;
 pub mod c09;
 pub mod c10;
@@ -25,6 +26,7 @@ pub fn run(id: &str, ctx: &Ctx) -> i32 {
         "C03" => c03::run(ctx),
         "C05" => c05::run(ctx),
         "C06" => c06::run(ctx),
+        "C07" => c07::run(ctx),
         "C08" => c08::run(ctx),
         "C09" => c09::run(ctx),
         "C10" => c10::run(ctx),
@@ -46,6 +48,7 @@ pub fn replay(id: &str, path: &str) -> i32 {
         "C03" => c03::replay(&v),
         "C05" => c05::replay(&v),
         "C06" => c06::replay(&v),
+        "C07" => c07::replay(&v),
         "C08" => c08::replay(&v),
         "C09" => c09::replay(&v),
         "C10" => c10::replay(&v),
